@@ -83,7 +83,15 @@ def main():
             print("cannot run the correspondence: the repository does not compile with the verification harness")
             sys.exit(2)
         if a.replay:
-            requests = fixed_requests
+            requests = [q for q in fixed_requests if not q.startswith("enum ")]
+            enum_reqs = [q for q in fixed_requests if q.startswith("enum ")]
+            if enum_reqs:
+                from vlib.enum_oracle import run_enum
+                from vlib.oracles import kv
+                specs = [(d["kind"], int(d["n"]), int(d["k"]), int(d["grid"]), int(d["draws"])) for d in map(kv, enum_reqs)]
+                for item in run_enum(binary, specs, "replayed-enumeration"):
+                    if item.pop("kind") == "oracle":
+                        oracle_fail.append(item)
         else:
             requests = mod.corpus(build) + mod.generate(rng.fork(build), tier, build)
         rc1, impl, e1 = C.run_lines(binary, ["run"], requests)
